@@ -519,7 +519,8 @@ def gen_case(rng, kind, maxlen, extra=False):
             lc = (rng.choice([0, 0, 0, 0, 2, 10, 11, 12]), 0, rng.choice([None, None, 0]))
             lc = (lc[0], 1 if lc[0] < 2 else 0, lc[2])
         per = nsets
-        itemss = [some(rng.choice([0, 0, 0, 1, 2, 3])) for _ in range(per)]
+        sizes = [0, 1, 2, 3, 3, 4] if (ordered or kind.startswith("toy")) else [0, 0, 0, 1, 2, 3]
+        itemss = [some(rng.choice(sizes)) for _ in range(per)]
         return ("construct", o, ordered if not kind.startswith("toy") else rng.random() < 0.7, lc, itemss)
 
     def do(op):
@@ -613,7 +614,17 @@ def gen_case(rng, kind, maxlen, extra=False):
         elif x < 0.81:
             op = ("setitem", o, j, z, e)
         elif x < 0.87:
-            op = ("setslice", o, j, a, b, some(rng.choice([0, 1, 2, 2, 3])))
+            free = [i for i, y_ in enumerate(ctx.pool) if y_.parent is None]
+            if ln >= 3 and len(free) >= 2 and rng.random() < 0.6:
+                # rollback probe: a slice wide enough for >= 3 new items, two (probably) acceptable free
+                # elements first, then one that is refused (contained here / owned elsewhere / anything)
+                rng.shuffle(free)
+                owned = [i for i, y_ in enumerate(ctx.pool) if y_.parent is not None]
+                tail = [rng.choice(owned) if owned and rng.random() < 0.8 else rng.randrange(n)]
+                op = ("setslice", o, j, None if rng.random() < 0.5 else 0, None if rng.random() < 0.5 else ln,
+                      free[:rng.choice([2, 2, 3])] + tail)
+            else:
+                op = ("setslice", o, j, a, b, some(rng.choice([0, 1, 2, 2, 3])))
         elif x < 0.90:
             op = ("delitem", o, j, z)
         elif x < 0.93:
